@@ -166,8 +166,9 @@ def work(ctx):
                          "cfg (cd_blocks d') (cd_addargs d') (cd_freevars d') (cd_type d') with OK (_, _, _, _, _, kst) => "
                          "ser_bool (data_wf cfg d') ++ ser_bool (view_agrees pkey_eqb (data_view (cd_blocks d')) (dis_view cfg (co_code code) (co_names code) "
                          "(co_varnames code) (co_freevars code) (co_cellvars code) kst (raw_entries (co_linetable code)) (co_firstlineno code))) "
+                         "++ ser_bool (view_wf cfg code (map fst kst)) "
                          "| Err _ => [2] end | Err _ => [3] end | Err _ => [4] end)".replace("PAIR", PAIR) % E.g_cd(d),
-                         [1, 1], "data_wf and composed K2 conclusion on %s" % what, "wf-monitor")
+                         [1, 1, 1], "data_wf, composed K2 conclusion and view_wf of the emitted code on %s" % what, "wf-monitor")
                 ncases += 1
             except E.Unsupported:
                 pass
